@@ -194,11 +194,12 @@ def table_row(sl):
                 "for negative baselines too", implies(pcol == "neutral", s_and(P < 0.01, P > -0.01)))
         observe("percentage that prints as 0.00% is neutral and unsigned",
                 implies(s_and(P < 0.005, P > -0.005), pcol == "neutral" and "+" not in strip(row[6])))
-        if bool(raw_b > 0):
-            observe("for a positive baseline the percentage never contradicts the direction of Diff",
-                    pcol == "neutral" or col == "neutral" or pcol == col)
-            observe("for a positive baseline a coloured percentage has the sign of the difference",
-                    implies(pcol != "neutral", ("+" in strip(row[6])) == bool(c > b)))
+        # one and the same line is never marked as improvement AND regression: the relative difference has the sign of the difference,
+        # whatever the sign of the baseline (stored counter deltas can be negative)
+        observe("the percentage never contradicts the direction of Diff (any non-zero baseline)",
+                pcol == "neutral" or col == "neutral" or pcol == col)
+        observe("a coloured percentage has the sign of the difference (any non-zero baseline)",
+                implies(pcol != "neutral", ("+" in strip(row[6])) == bool(c > b)))
     else:
         observe("zero baseline: relative difference printed neutrally", pcol == "neutral")
     # plain table == rich table without colour codes
